@@ -241,6 +241,9 @@ func runC12(c c12Case) error {
 
 func c12GenBounds(t *rapid.T) []int64 {
 	n := rapid.IntRange(1, 20).Draw(t, "nb")
+	if rapid.IntRange(0, 7).Draw(t, "longlist") == 0 {
+		n = rapid.IntRange(21, 300).Draw(t, "nblong") // a generated list (one bucket per millisecond, per percent, ...)
+	}
 	b := make([]int64, 0, n)
 	var cur int64
 	switch rapid.IntRange(0, 3).Draw(t, "first") {
